@@ -159,12 +159,13 @@ def handle_firmware_request(msg):
 def handle_id_request(msg):
     """Process an internal id request message."""
     node_id = msg.gateway.add_sensor()
-    return (
-        msg.copy(
-            ack=0, sub_type=msg.gateway.const.Internal["I_ID_RESPONSE"], payload=node_id
-        )
-        if node_id is not None
-        else None
+    if node_id is None:
+        return None
+    # The reserved id must be saved, or it will be handed out again after a restart.
+    if msg.gateway.tasks.persistence:
+        msg.gateway.tasks.persistence.need_save = True
+    return msg.copy(
+        ack=0, sub_type=msg.gateway.const.Internal["I_ID_RESPONSE"], payload=node_id
     )
 
 
